@@ -50,6 +50,8 @@ func endEmitters(p *Prog) (emitters []*ssa.Function, isEmitter map[*ssa.Function
 
 func runC03(c *Ctx) {
 	p := c.P
+	// clauses shared with C01 (a response declared compressed is a stream of that compression)
+	defer c.ImportRules("C01", "C01.4", "C01.6")
 	rwT := p.MustNamed("responseWriter")
 	_ = rwT
 	flushHeaders := p.MustFunc("(*responseWriter).flushHeaders")
@@ -376,6 +378,12 @@ func runC03(c *Ctx) {
 
 func runC03more(c *Ctx) {
 	p := c.P
+	// ---------------------------------------------------------------- C03.11
+	c.Rule("C03.11", "response-side adapters read only the response direction's compression cells", 10)
+	checkDirectionCells(c, "C03.11", true)
+	// ---------------------------------------------------------------- C03.12
+	c.Rule("C03.12", "an enveloped unit is decompressed exactly when its own envelope's compressed flag says so", 2)
+	checkUnitFlagDecompress(c, "C03.12")
 	// ---------------------------------------------------------------- C03.7
 	c.Rule("C03.7", "a failed write to the client-side sink closes the body adapter (its error cell is set) before the error is returned", 5)
 	for _, tn := range []string{"envelopingWriter", "transformingWriter"} {
@@ -636,27 +644,33 @@ func runC03more(c *Ctx) {
 		}
 		bad := 0
 		for _, cp := range paths {
-			declared := false
+			// the path must KNOW that nothing is declared (compression == ""), or have recorded it
+			knownNone := false
 			for cond, truth := range cp.Truth {
 				b, ok := cond.(*ssa.BinOp)
-				if !ok || !truth || b.Op != token.NEQ {
+				if !ok || (b.Op != token.NEQ && b.Op != token.EQL) {
 					continue
 				}
-				if s2, isS := ConstString(b.Y); isS && s2 == "" {
-					if f := LoadedFieldOrField(b.X); f == comprMetaF {
-						declared = true
-					} else if fv, ok := b.X.(*ssa.Field); ok && FieldOfVal(fv) == comprMetaF {
-						declared = true
-					} else {
-						for _, l := range Origins(b.X) {
-							if l.Kind == "load" && l.Field == comprMetaF {
-								declared = true
-							}
+				if s2, isS := ConstString(b.Y); !isS || s2 != "" {
+					continue
+				}
+				isMeta := false
+				if f := LoadedFieldOrField(b.X); f == comprMetaF {
+					isMeta = true
+				} else if fv, ok := b.X.(*ssa.Field); ok && FieldOfVal(fv) == comprMetaF {
+					isMeta = true
+				} else {
+					for _, l := range Origins(b.X) {
+						if l.Kind == "load" && l.Field == comprMetaF {
+							isMeta = true
 						}
 					}
 				}
+				if isMeta && (b.Op == token.NEQ && !truth || b.Op == token.EQL && truth) {
+					knownNone = true
+				}
 			}
-			if !declared {
+			if knownNone {
 				continue
 			}
 			set := false
